@@ -16,6 +16,7 @@ package cron
 //@   ensures result == cronNext(recv, fromTime)
 
 //@ func multiExpression.Next
+//@   locals earliestNext: time.Time
 //@   params m, fromTime
 //@   tags C01
 //@   safety nil, index
